@@ -33,6 +33,7 @@ struct Inner {
     actions: HashMap<String, Action>,
     faults: HashMap<String, Vec<Option<u32>>>,
     sticky_faults: HashMap<String, u32>,
+    detail_faults: Vec<(String, String, u32)>,   // (name, detail prefix, value)
     parked: HashMap<String, u64>,     // name -> number of threads currently parked
     arrived: HashMap<String, u64>,    // name -> total arrivals
     released: HashMap<String, u64>,   // name -> release tickets
@@ -85,6 +86,13 @@ impl Hooks {
         let mut i = self.inner.lock().unwrap();
         match value { Some(v) => { i.sticky_faults.insert(name.into(), v); } None => { i.sticky_faults.remove(name); } }
     }
+
+    /// A fault that applies whenever the detail starts with `prefix`.
+    pub fn add_detail_fault(&self, name: &str, prefix: &str, value: u32) {
+        self.inner.lock().unwrap().detail_faults.push((name.into(), prefix.into(), value));
+    }
+
+    pub fn clear_detail_faults(&self) { self.inner.lock().unwrap().detail_faults.clear(); }
 
     pub fn set_snapshot(&self, s: PayloadSnapshot) {
         self.inner.lock().unwrap().snapshot = Some(s);
@@ -196,9 +204,13 @@ impl Handler for Hooks {
         }
     }
 
-    fn fault(&self, name: &str, _detail: &str) -> Option<u32> {
+    fn fault(&self, name: &str, detail: &str) -> Option<u32> {
         let mut i = self.inner.lock().unwrap();
         *i.counts.entry(format!("fault:{name}")).or_insert(0) += 1;
+        if let Some(v) = i.detail_faults.iter().find(|f| f.0 == name && detail.starts_with(f.1.as_str())).map(|f| f.2) {
+            *i.counts.entry(format!("fault-injected:{name}")).or_insert(0) += 1;
+            return Some(v)
+        }
         if let Some(q) = i.faults.get_mut(name) {
             if !q.is_empty() { return q.remove(0) }
         }
